@@ -1,1 +1,672 @@
-//! C21: not implemented yet.
+//! C21 — Server statistics account for every datagram exactly once (daemon part).
+//!
+//! The daemon's `ServerStats` (ntpd/src/daemon/server.rs) is the `ServerStatHandler` the
+//! real `Server::handle` reports to; ntp-ctl and the metrics exporter show its counters.
+//!
+//! Part 1 (E-SEQ, exhaustive over the handler's input alphabet): every sequence of
+//!   `register(nts, reason, response)` calls up to length 3 (quick) / 4 (thorough) over all
+//!   2 x 5 x 4 = 40 argument combinations on a fresh `ServerStats`; after every call all
+//!   eleven counters are compared with a reference model (BTreeMap of categories).
+//! Part 2 (E-IN/E-SEQ through the real server): policies built as the daemon's own
+//!   `config::ServerConfig` and converted with its `From` impl, real `ntp_proto::Server`,
+//!   `ServerStats` as handler; one long request sequence per policy (address x datagram x
+//!   buffer size, rate limiter off and on). After EVERY handle call:
+//!     received = accepted + denied + ignored + rate-limited + nak, received == #handled,
+//!     exactly one category moved and it is the one matching what was done (judged from
+//!     the returned action and the answer header), NTS counters only move for requests
+//!     that carry NTS fields and always move for answered ones.
+//!
+//! The valid NTS requests are fixtures (hex) produced by the ntp-proto half of this group
+//! (`VERIF_GF_EMIT=1 <ntp_proto test binary> verif::c21::emit_fixtures`): they authenticate
+//! under the key set `KeySetProvider::load` builds from id offset 1 and an all-zero key
+//! (ntpd cannot encrypt: the AEAD types are not exported by ntp-proto).
+use std::collections::BTreeMap;
+use std::net::{IpAddr, SocketAddr};
+use std::sync::Arc;
+use std::time::Duration;
+
+use ntp_proto::{
+    FilterAction, FilterList, IpSubnet, KeySet, KeySetProvider, NtpClock, NtpDuration,
+    NtpLeapIndicator, NtpTimestamp, NtpVersion, Server, ServerAction, ServerReason,
+    ServerResponse, ServerStatHandler,
+};
+
+use super::super::config::ServerConfig;
+use super::super::server::ServerStats;
+use super::common::{self, Ctx};
+
+const FIX_V4_NTS: &str = "230006000000000000000000000000000000000000000000000000000000000000000000000000000c11e4177a67004201040024a5a5a5a5a5a5a5a5a5a5a5a5a5a5a5a5a5a5a5a5a5a5a5a5a5a5a5a5a5a5a5a50204006c0000000100520b7b5ed8fa6acb11f527f67fd541cb08449fee4c44e1261f6ddead3b83e79627d3d1d59015c36693535538f84b65dfe5cef6bd8c04bfc4847c8c2e214befb46a2bc850123c5075d46834960e78672c92f41fd347922bc25a9b408123736954eb075c04040028001000108435831e88cd6a60ac8b8ce7f346e407572a2be815c3c16cfea4cd3b02a8ac34";
+const FIX_V5_NTS: &str = "2b00060000000000000000000000000000000000000000000c11e4177a6700420000000000000000000000000000000001040024a5a5a5a5a5a5a5a5a5a5a5a5a5a5a5a5a5a5a5a5a5a5a5a5a5a5a5a5a5a5a5a50204006c0000000100520b7b5ed8fa6acb11f527f67fd541cb08449fee4c44e1261f6ddead3b83e79627d3d1d59015c36693535538f84b65dfe5cef6bd8c04bfc4847c8c2e214befb46a2bc850123c5075d46834960e78672c92f41fd347922bc25a9b408123736954eb075cf5ff001b64726166742d696574662d6e74702d6e747076352d30390004040028001000108b169535eef8dca533c424604e8154225b4d98c11075ed6d8fd22aa54293d41f";
+
+const DRAFT: &str = "draft-ietf-ntp-ntpv5-09";
+
+// ------------------------------ counters and model -------------------------------
+
+const NAMES: [&str; 11] = [
+    "received",
+    "accepted",
+    "denied",
+    "ignored",
+    "rate_limited",
+    "response_send_errors",
+    "nts_received",
+    "nts_accepted",
+    "nts_denied",
+    "nts_rate_limited",
+    "nts_nak",
+];
+
+fn snap(s: &ServerStats) -> [u64; 11] {
+    [
+        s.received_packets.get(),
+        s.accepted_packets.get(),
+        s.denied_packets.get(),
+        s.ignored_packets.get(),
+        s.rate_limited_packets.get(),
+        s.response_send_errors.get(),
+        s.nts_received_packets.get(),
+        s.nts_accepted_packets.get(),
+        s.nts_denied_packets.get(),
+        s.nts_rate_limited_packets.get(),
+        s.nts_nak_packets.get(),
+    ]
+}
+
+fn fmt_snap(a: &[u64; 11]) -> String {
+    NAMES.iter().zip(a).map(|(n, v)| format!("{n}={v}")).collect::<Vec<_>>().join(" ")
+}
+
+/// What a datagram ended as, in the statement's terms.
+#[derive(Clone, Copy, PartialEq, Eq, Debug)]
+enum Cat {
+    Accepted,
+    Denied,
+    Ignored,
+    RateLimited,
+    Nak,
+}
+
+fn cat_index(c: Cat) -> usize {
+    match c {
+        Cat::Accepted => 1,
+        Cat::Denied => 2,
+        Cat::Ignored => 3,
+        Cat::RateLimited => 4,
+        Cat::Nak => 10,
+    }
+}
+
+const REASONS: [ServerReason; 5] = [
+    ServerReason::RateLimit,
+    ServerReason::ParseError,
+    ServerReason::InvalidCrypto,
+    ServerReason::InternalError,
+    ServerReason::Policy,
+];
+const RESPONSES: [ServerResponse; 4] = [
+    ServerResponse::NTSNak,
+    ServerResponse::Deny,
+    ServerResponse::Ignore,
+    ServerResponse::ProvideTime,
+];
+
+/// Reference: which counters one statistics entry must move (from the counter names:
+/// the five top-level categories partition `received`; the `nts_*` ones count the NTS
+/// flagged subset of received / accepted / denied / rate-limited).
+fn model_apply(m: &mut [u64; 11], nts: bool, reason: ServerReason, response: ServerResponse) -> Cat {
+    let cat = match response {
+        ServerResponse::ProvideTime => Cat::Accepted,
+        ServerResponse::Deny => Cat::Denied,
+        ServerResponse::NTSNak => Cat::Nak,
+        ServerResponse::Ignore => {
+            if reason == ServerReason::RateLimit {
+                Cat::RateLimited
+            } else {
+                Cat::Ignored
+            }
+        }
+    };
+    m[0] += 1;
+    m[cat_index(cat)] += 1;
+    if nts {
+        m[6] += 1;
+        match cat {
+            Cat::Accepted => m[7] += 1,
+            Cat::Denied => m[8] += 1,
+            Cat::RateLimited => m[9] += 1,
+            Cat::Ignored | Cat::Nak => {}
+        }
+    }
+    cat
+}
+
+fn sum_ok(a: &[u64; 11]) -> bool {
+    a[0] == a[1] + a[2] + a[3] + a[4] + a[10]
+}
+
+fn sym_text(s: usize) -> String {
+    let (nts, reason, response) = sym(s);
+    format!("{}/{:?}/{:?}", if nts { "nts" } else { "plain" }, reason, response)
+}
+
+fn sym(s: usize) -> (bool, ServerReason, ServerResponse) {
+    (s / 20 == 1, REASONS[(s / 4) % 5], RESPONSES[s % 4])
+}
+
+fn run_register_word(ctx: &Ctx, word: &[usize], judge_all: bool) -> String {
+    let mut stats = ServerStats::default();
+    let mut model = [0u64; 11];
+    let mut obs = Vec::new();
+    for (i, s) in word.iter().enumerate() {
+        let (nts, reason, response) = sym(*s);
+        stats.register(4, nts, reason, response);
+        model_apply(&mut model, nts, reason, response);
+        let got = snap(&stats);
+        if judge_all || i + 1 == word.len() {
+            let trace = || format!("reg;{}", word[..=i].iter().map(|s| s.to_string()).collect::<Vec<_>>().join(","));
+            if !sum_ok(&got) {
+                ctx.violation(
+                    "C21:counters-do-not-add-up",
+                    format!("after {}: {}", word[..=i].iter().map(|s| sym_text(*s)).collect::<Vec<_>>().join(", "), fmt_snap(&got)),
+                    trace(),
+                );
+            }
+            if got != model {
+                let diff: Vec<String> = (0..11)
+                    .filter(|k| got[*k] != model[*k])
+                    .map(|k| format!("{}={} (expected {})", NAMES[k], got[k], model[k]))
+                    .collect();
+                ctx.violation(
+                    &format!("C21:counter-mapping:{}", NAMES[(0..11).find(|k| got[*k] != model[*k]).unwrap()]),
+                    format!("after {}: {}", word[..=i].iter().map(|s| sym_text(*s)).collect::<Vec<_>>().join(", "), diff.join(", ")),
+                    trace(),
+                );
+            }
+        }
+        obs.push(fmt_snap(&got));
+    }
+    obs.join(" | ")
+}
+
+fn part1(ctx: &Ctx, max_len: usize) {
+    for len in 1..=max_len {
+        let n = common::pow(40, len);
+        common::par_for(n, 4096, |i| {
+            let word = common::word_of(i, 40, len);
+            // every prefix is its own word of a shorter length: judge only the last step
+            run_register_word(ctx, &word, false);
+        });
+        ctx.add("reg.sequences", n);
+        ctx.add("evaluations", n);
+        ctx.add("transitions", n * len as u64);
+        ctx.add("states", n);
+    }
+    // all 40 single entries are distinct, non-trivial cases
+    for s in 0..40u64 {
+        ctx.distinct(common::hash_of(&("reg", s)));
+    }
+    ctx.set("reg.max_len", max_len as u64);
+}
+
+// ------------------------------- part 2: real server -----------------------------
+
+#[derive(Clone)]
+struct Clock;
+
+impl NtpClock for Clock {
+    type Error = std::io::Error;
+    fn now(&self) -> Result<NtpTimestamp, Self::Error> {
+        Ok(NtpTimestamp::from_seconds_nanos_since_ntp_era(1000, 500))
+    }
+    fn set_frequency(&self, _f: f64) -> Result<NtpTimestamp, Self::Error> {
+        panic!("verif: server steered the clock");
+    }
+    fn get_frequency(&self) -> Result<f64, Self::Error> {
+        Ok(0.0)
+    }
+    fn step_clock(&self, _o: NtpDuration) -> Result<NtpTimestamp, Self::Error> {
+        panic!("verif: server stepped the clock");
+    }
+    fn disable_ntp_algorithm(&self) -> Result<(), Self::Error> {
+        panic!("verif: server touched the clock discipline");
+    }
+    fn error_estimate_update(&self, _e: NtpDuration, _m: NtpDuration) -> Result<(), Self::Error> {
+        panic!("verif: server updated error estimates");
+    }
+    fn status_update(&self, _l: NtpLeapIndicator) -> Result<(), Self::Error> {
+        panic!("verif: server updated clock status");
+    }
+}
+
+fn keyset() -> Arc<KeySet> {
+    let mut raw = Vec::new();
+    raw.extend_from_slice(&0u64.to_be_bytes());
+    raw.extend_from_slice(&1u32.to_be_bytes()); // id offset
+    raw.extend_from_slice(&0u32.to_be_bytes()); // primary
+    raw.extend_from_slice(&1u32.to_be_bytes()); // one key
+    raw.extend_from_slice(&[0u8; 64]);
+    KeySetProvider::load(&mut &raw[..], 1).expect("keyset").0.get()
+}
+
+#[derive(Clone)]
+struct Dg {
+    name: String,
+    bytes: Vec<u8>,
+    /// carries NTS fields
+    nts: bool,
+}
+
+fn hdr34(version: u8, mode: u8) -> Vec<u8> {
+    let mut b = vec![0u8; 48];
+    b[0] = (version << 3) | mode;
+    b[2] = 6;
+    b[40..48].copy_from_slice(&0x0C11_E417_7A67_0042u64.to_be_bytes());
+    b
+}
+
+fn hdr5(mode: u8) -> Vec<u8> {
+    let mut b = vec![0u8; 48];
+    b[0] = (5 << 3) | mode;
+    b[2] = 6;
+    b[24..32].copy_from_slice(&0x0C11_E417_7A67_0042u64.to_be_bytes());
+    // draft identification field (v5 framing: length = header + body, wire padded to 4)
+    b.extend_from_slice(&0xF5FFu16.to_be_bytes());
+    b.extend_from_slice(&((4 + DRAFT.len()) as u16).to_be_bytes());
+    b.extend_from_slice(DRAFT.as_bytes());
+    while b.len() % 4 != 0 {
+        b.push(0);
+    }
+    b
+}
+
+fn datagrams() -> Vec<Dg> {
+    let mut v = Vec::new();
+    let mut push = |name: &str, bytes: Vec<u8>, nts: bool| {
+        v.push(Dg {
+            name: name.to_string(),
+            bytes,
+            nts,
+        })
+    };
+    for mode in [3u8, 0, 1, 2, 4, 5, 6, 7] {
+        push(&format!("v3.plain.m{mode}"), hdr34(3, mode), false);
+        push(&format!("v4.plain.m{mode}"), hdr34(4, mode), false);
+        push(&format!("v5.plain.m{mode}"), hdr5(mode), false);
+    }
+    let mut p = hdr34(4, 3);
+    p.extend_from_slice(&[0x01, 0x04, 0x00, 0x24]);
+    p.extend_from_slice(&[0xA5; 32]);
+    push("v4.plain.uid", p, false);
+    let mut p = hdr34(4, 3);
+    p.extend_from_slice(&[0x5A; 20]);
+    push("v4.plain.mac20", p, false);
+    push("empty", vec![], false);
+    push("v4.trunc47", hdr34(4, 3)[..47].to_vec(), false);
+    push("ver7.m3", hdr34(7, 3), false);
+    push("garbage-ff120", vec![0xFF; 120], false);
+    let mut p = hdr34(4, 3);
+    p.extend_from_slice(&[0x01, 0x04, 0x00, 0x40]);
+    p.extend_from_slice(&[0xA5; 32]);
+    push("v4.ext-len-overrun", p, false);
+    let v4 = common::unhex(FIX_V4_NTS).expect("fixture");
+    let v5 = common::unhex(FIX_V5_NTS).expect("fixture");
+    push("v4.nts.ok.m3", v4.clone(), true);
+    push("v5.nts.ok.m3", v5.clone(), true);
+    let mut p = v4.clone();
+    let n = p.len();
+    p[n - 1] ^= 1;
+    push("v4.nts.badtag.m3", p.clone(), true);
+    p[0] = (4 << 3) | 4;
+    push("v4.nts.badtag.m4", p, true);
+    let mut p = v5.clone();
+    let n = p.len();
+    p[n - 1] ^= 1;
+    push("v5.nts.badtag.m3", p, true);
+    let mut p = v4.clone();
+    p[0] = (4 << 3) | 4; // header is associated data: no longer authenticates, and not client mode
+    push("v4.nts.aad-mode4", p, true);
+    v
+}
+
+#[derive(Clone, Copy, PartialEq, Eq, Debug)]
+enum Did {
+    Nothing,
+    Time,
+    Deny,
+    Nak,
+    Odd,
+}
+
+fn classify(resp: Option<&[u8]>, req: &[u8]) -> Did {
+    let Some(r) = resp else { return Did::Nothing };
+    if r.len() < 48 || req.is_empty() {
+        return Did::Odd;
+    }
+    let version = (r[0] >> 3) & 7;
+    if version != (req[0] >> 3) & 7 || r[0] & 7 != 4 {
+        return Did::Odd;
+    }
+    if r[1] != 0 {
+        return Did::Time;
+    }
+    if version == 5 {
+        match (r[15] & 4 != 0, r[2] == 0x7F) {
+            (true, false) => Did::Nak,
+            (false, true) => Did::Deny,
+            _ => Did::Odd,
+        }
+    } else {
+        match &r[12..16] {
+            b"DENY" => Did::Deny,
+            b"NTSN" => Did::Nak,
+            _ => Did::Odd,
+        }
+    }
+}
+
+#[derive(Clone)]
+struct Pol {
+    name: String,
+    cfg: ServerConfig,
+    rl: bool,
+}
+
+fn subnet(s: &str) -> IpSubnet {
+    s.parse().expect("subnet")
+}
+
+fn policies() -> Vec<Pol> {
+    let mut v = Vec::new();
+    let denies: [(&str, Vec<IpSubnet>); 2] = [("none", vec![]), ("d24", vec![subnet("10.1.2.0/24")])];
+    let allows: [(&str, Vec<IpSubnet>); 2] = [
+        ("all", vec![subnet("::/0"), subnet("0.0.0.0/0")]),
+        ("a16", vec![subnet("10.1.0.0/16"), subnet("2001:db8::/32")]),
+    ];
+    let acts = [("i", FilterAction::Ignore), ("d", FilterAction::Deny)];
+    let rn = [("n", None), ("i", Some(FilterAction::Ignore)), ("d", Some(FilterAction::Deny))];
+    let vers = [("4", vec![NtpVersion::V4]), ("345", vec![NtpVersion::V3, NtpVersion::V4, NtpVersion::V5])];
+    for (dn, dl) in &denies {
+        for (dan, da) in &acts {
+            for (an, al) in &allows {
+                for (aan, aa) in &acts {
+                    for (rnn, r) in &rn {
+                        for (vn, vs) in &vers {
+                            for rl in [false, true] {
+                                // the daemon's own configuration type; converted with its From impl below
+                                let cfg = ServerConfig {
+                                    listen: SocketAddr::new("127.0.0.1".parse().unwrap(), 123),
+                                    denylist: FilterList {
+                                        filter: dl.clone(),
+                                        action: *da,
+                                    },
+                                    allowlist: FilterList {
+                                        filter: al.clone(),
+                                        action: *aa,
+                                    },
+                                    rate_limiting_cache_size: if rl { 4 } else { 0 },
+                                    rate_limiting_cutoff: if rl { Duration::from_secs(3600) } else { Duration::ZERO },
+                                    require_nts: *r,
+                                    accept_ntp_versions: vs.clone(),
+                                };
+                                v.push(Pol {
+                                    name: format!("deny={dn}:{dan};allow={an}:{aan};nts={rnn};ver={vn};rl={}", rl as u8),
+                                    cfg,
+                                    rl,
+                                });
+                            }
+                        }
+                    }
+                }
+            }
+        }
+    }
+    v
+}
+
+fn addresses(thorough: bool) -> Vec<IpAddr> {
+    let mut v = vec!["10.1.2.3", "10.1.9.9", "192.0.2.1", "2001:db8::1", "::ffff:10.1.2.3"];
+    if thorough {
+        v.extend(["10.1.3.0", "2001:db9::1", "::ffff:192.0.2.1", "::1"]);
+    }
+    v.into_iter().map(|s| s.parse().unwrap()).collect()
+}
+
+/// The request sequence of one policy: (address index, datagram index, buffer size).
+fn sequence(order: usize, na: usize, dgs: &[Dg]) -> Vec<(usize, usize, usize)> {
+    let mut v = Vec::new();
+    let bufs = |d: &Dg| [0usize, 47, d.bytes.len(), 4096];
+    match order {
+        0 => {
+            for a in 0..na {
+                for (di, d) in dgs.iter().enumerate() {
+                    for b in bufs(d) {
+                        v.push((a, di, b));
+                    }
+                }
+            }
+        }
+        _ => {
+            for (di, d) in dgs.iter().enumerate() {
+                for b in bufs(d) {
+                    for a in 0..na {
+                        v.push((a, di, b));
+                    }
+                }
+            }
+        }
+    }
+    v
+}
+
+/// Run a policy's sequence (optionally only the first `limit` steps); returns the
+/// observation of the last step for replay.
+fn run_policy(ctx: &Ctx, pol: &Pol, order: usize, addrs: &[IpAddr], dgs: &[Dg], limit: Option<usize>, tally: &mut BTreeMap<String, u64>) -> String {
+    let ks = keyset();
+    let mut server = Server::new_internal(pol.cfg.clone().into(), Clock, Arc::default(), ks);
+    let mut stats = ServerStats::default();
+    let seq = sequence(order, addrs.len(), dgs);
+    let mut prev = snap(&stats);
+    let mut seen_addr: Vec<bool> = vec![false; addrs.len()];
+    let mut last = String::new();
+    let mut buf4096 = vec![0u8; 4096];
+    for (step, (ai, di, bs)) in seq.iter().enumerate() {
+        if let Some(l) = limit {
+            if step >= l {
+                break;
+            }
+        }
+        let d = &dgs[*di];
+        let addr = addrs[*ai];
+        let trace = || format!("srv;{};order={order};steps={}", pol.name, step + 1);
+        let buf = &mut buf4096[..*bs];
+        let r = common::catch(|| {
+            match server.handle(addr, NtpTimestamp::from_seconds_nanos_since_ntp_era(999, 7), &d.bytes, buf, &mut stats) {
+                ServerAction::Ignore => None,
+                ServerAction::Respond { message } => Some(message.to_vec()),
+            }
+        });
+        let resp = match r {
+            Ok(x) => x,
+            Err(e) => {
+                ctx.violation("C21:handle-panic", format!("Server::handle panicked: {e}"), trace());
+                return format!("panic {e}");
+            }
+        };
+        let did = classify(resp.as_deref(), &d.bytes);
+        let now = snap(&stats);
+        let delta: Vec<i64> = (0..11).map(|k| now[k] as i64 - prev[k] as i64).collect();
+        let describe = || {
+            format!(
+                "step {} ({} from {addr}, buffer {bs}): did {:?}; counters moved: {}",
+                step + 1,
+                d.name,
+                did,
+                (0..11).filter(|k| delta[*k] != 0).map(|k| format!("{}{:+}", NAMES[k], delta[k])).collect::<Vec<_>>().join(" ")
+            )
+        };
+        // received counts every datagram exactly once
+        if now[0] != (step + 1) as u64 || delta[0] != 1 {
+            ctx.violation("C21:received-not-once", describe(), trace());
+        }
+        if !sum_ok(&now) {
+            ctx.violation("C21:counters-do-not-add-up", format!("{}; {}", describe(), fmt_snap(&now)), trace());
+        }
+        // exactly one category moved, by one, and it is the right one
+        let cats = [1usize, 2, 3, 4, 10];
+        let moved: Vec<usize> = cats.iter().copied().filter(|k| delta[*k] != 0).collect();
+        let allowed: &[usize] = match did {
+            Did::Time => &[1],
+            Did::Deny => &[2],
+            Did::Nak => &[10],
+            Did::Nothing => &[3, 4],
+            Did::Odd => &[],
+        };
+        if moved.len() != 1 || delta[moved[0]] != 1 || !allowed.contains(&moved[0]) {
+            ctx.violation(
+                &format!("C21:category-mismatch:did-{}", format!("{did:?}").to_lowercase()),
+                describe(),
+                trace(),
+            );
+        } else if moved[0] == 4 && !(pol.rl && seen_addr[*ai]) {
+            // rate-limited needs the limiter on and an earlier request from this address
+            ctx.violation("C21:rate-limited-counted-without-limiter", describe(), trace());
+        }
+        if delta[5] != 0 {
+            ctx.violation("C21:send-errors-moved", describe(), trace());
+        }
+        // NTS counters
+        let nts_moved = delta[6];
+        if !d.nts && (nts_moved != 0 || delta[7] != 0 || delta[8] != 0 || delta[9] != 0) {
+            ctx.violation("C21:nts-counter-on-plain-request", describe(), trace());
+        }
+        if d.nts && resp.is_some() && nts_moved != 1 {
+            ctx.violation(
+                if did == Did::Deny && (d.name.contains("bad") || d.name.contains("aad")) {
+                    "C21:nts-flag-missing-on-denied-undecryptable"
+                } else {
+                    "C21:nts-counter-missing-on-answered-nts"
+                },
+                describe(),
+                trace(),
+            );
+        }
+        // nts sub-counters follow their parents
+        let want7 = (nts_moved == 1 && delta[1] == 1) as i64;
+        let want8 = (nts_moved == 1 && delta[2] == 1) as i64;
+        let want9 = (nts_moved == 1 && delta[4] == 1) as i64;
+        if delta[7] != want7 || delta[8] != want8 || delta[9] != want9 || !(0..=1).contains(&nts_moved) {
+            ctx.violation("C21:nts-subcounter-mismatch", describe(), trace());
+        }
+        let key = format!(
+            "srv.{}.{}",
+            format!("{did:?}").to_lowercase(),
+            moved.first().map(|k| NAMES[*k]).unwrap_or("none")
+        );
+        *tally.entry(key).or_insert(0) += 1;
+        if d.nts && nts_moved == 1 {
+            *tally.entry(format!("srv.nts.{}", format!("{did:?}").to_lowercase())).or_insert(0) += 1;
+        }
+        seen_addr[*ai] = true;
+        prev = now;
+        last = format!("{} -> {}", describe(), fmt_snap(&now));
+    }
+    last
+}
+
+fn part2(ctx: &Ctx) {
+    let thorough = !ctx.quick();
+    let pols = policies();
+    let addrs = addresses(thorough);
+    let dgs = datagrams();
+    let orders: usize = if thorough { 2 } else { 1 };
+    ctx.set("srv.policies", pols.len() as u64);
+    ctx.set("srv.addresses", addrs.len() as u64);
+    ctx.set("srv.datagrams", dgs.len() as u64);
+    let per = sequence(0, addrs.len(), &dgs).len() as u64;
+    common::par_for(pols.len() as u64 * orders as u64, 1, |i| {
+        let pol = &pols[(i / orders as u64) as usize];
+        let order = (i % orders as u64) as usize;
+        let mut tally = BTreeMap::new();
+        let last = run_policy(ctx, pol, order, &addrs, &dgs, None, &mut tally);
+        for (k, n) in tally {
+            ctx.add(&k, n);
+        }
+        ctx.add("evaluations", per);
+        ctx.add("transitions", per);
+        ctx.add("states", per);
+        ctx.distinct(common::hash_of(&("srv", &pol.name, order)));
+        if i % 37 == 3 {
+            ctx.sample(format!("{};order={order}: last {}", pol.name, last));
+        }
+    });
+}
+
+fn replay(ctx: &Ctx, trace: &str) -> String {
+    if let Some(rest) = trace.strip_prefix("reg;") {
+        let word: Vec<usize> = rest.split(',').filter_map(|s| s.trim().parse().ok()).filter(|s| *s < 40).collect();
+        if word.is_empty() {
+            return "empty register word".into();
+        }
+        return run_register_word(ctx, &word, true);
+    }
+    // srv;<policy name>;order=<o>;steps=<n>
+    let Some(rest) = trace.strip_prefix("srv;") else {
+        return format!("unknown trace {trace:?}");
+    };
+    let mut order = 0usize;
+    let mut steps = None;
+    let mut name_parts = Vec::new();
+    for part in rest.split(';') {
+        if let Some(o) = part.strip_prefix("order=") {
+            order = o.parse().unwrap_or(0);
+        } else if let Some(s) = part.strip_prefix("steps=") {
+            steps = s.parse().ok();
+        } else {
+            name_parts.push(part);
+        }
+    }
+    let name = name_parts.join(";");
+    let Some(pol) = policies().into_iter().find(|p| p.name == name) else {
+        return format!("unknown policy {name:?}");
+    };
+    // the trace may come from either tier: use the address set that contains the step
+    let dgs = datagrams();
+    let addrs = addresses(std::env::var("VERIF_TIER").as_deref() == Ok("thorough"));
+    let mut tally = BTreeMap::new();
+    run_policy(ctx, &pol, order, &addrs, &dgs, steps, &mut tally)
+}
+
+#[test]
+fn check() {
+    let ctx = Ctx::new("C21");
+    if let Some(t) = common::replay_trace() {
+        let a = replay(&ctx, &t);
+        let b = replay(&ctx, &t);
+        common::report_replay("C21", &a, &b, ctx.violation_count() > 0);
+        return;
+    }
+    let max_len = if ctx.quick() { 3 } else { 4 };
+    ctx.rule(&format!(
+        "Part 1: every sequence of length <= {max_len} over all 40 (nts flag, reason, response) statistics entries on a fresh \
+         ServerStats, all eleven counters compared with a reference model after the last entry of each sequence. Part 2: 192 daemon \
+         ServerConfig policies (deny list x action x allow list x action x require-nts x accepted versions x rate limiter off/on) \
+         converted with the daemon's From impl, real ntp_proto::Server with ServerStats as handler, one request sequence per policy \
+         over addresses x 38 byte-built datagrams (plain v3/v4/v5 in every mode, fields, MAC, malformed, NTS valid (fixtures) and \
+         undecryptable) x buffer size {{0,47,request length,4096}}{}; invariants checked after every handle call. Distinct & \
+         non-trivial = each of the 40 entries (Part 1) and each (policy, order) sequence (Part 2).",
+        if ctx.quick() { "" } else { " in two orders (address-major, datagram-major)" }
+    ));
+    ctx.assume("the five top-level categories partition received; nts_* count the NTS-flagged subset of received/accepted/denied/rate-limited (reading of the counter names)");
+    ctx.assume("ServerTask::serve passes &mut self.stats to Server::handle for every received datagram and registers once itself for datagrams without a timestamp (read, not executed: needs real sockets)");
+    ctx.assume("NTS fixtures authenticate under the all-zero key set; if ntp-proto changes its cookie format they must be re-emitted");
+    part1(&ctx, max_len);
+    part2(&ctx);
+    // vacuity: the fixtures must actually have been accepted as NTS
+    if ctx.get("srv.nts.time") == 0 {
+        ctx.cap_hit("machinery: no NTS fixture was accepted (fixtures stale?) - NTS accepted path not exercised");
+        ctx.exhaustive(false);
+    } else {
+        ctx.exhaustive(true);
+    }
+    ctx.finish();
+}
